@@ -47,7 +47,7 @@ try:
             'demo_exit_with_change': demo_mut.returncode, 'demo_exit_without_change': demo_clean.returncode, 'valid_seed': valid,
             'needs': open(src['meta']).read() if src['meta'] and os.path.exists(src['meta']) else json.load(open(f'{dst}/meta.json')).get('needs', ''),
             'ran': f'scratch copy of /repo + patch; pytest; demo with/without; ./check {" ".join([pid] + extra)} --tier {tier} with VERIF_REPO=<copy>',
-            'checks': res, 'caught_by': sorted(c for c, r in res.items() if r['exit'] == 1)}
+            'checks': res, 'caught_by': sorted(c for c, r in res.items() if r['exit'] == 1 and r['violation_lines'] > 0)}
     os.makedirs(dst, exist_ok=True)
     if src['patch'] != f'{dst}/patch.diff':
         shutil.copy(src['patch'], f'{dst}/patch.diff'); shutil.copy(src_demo_orig, f'{dst}/demo.py')
